@@ -508,6 +508,8 @@ def batch(task):
     seed, lo, hi = task["seed"], task["lo"], task["hi"]
     tier = TIERS[task.get("tier", "quick")]
     agg = new_agg()
+    if runner.past_deadline():
+        return agg  # the tier's soft time budget is used up: no further runs are started
     for run in range(lo, hi):
         try:
             res, program = runner.guarded(one_run, 120, seed, run, force_config=task.get("config"))
